@@ -119,7 +119,12 @@ fn macro_file_plugin() -> Box<dyn mimium_lang::plugin::Plugin> {
     use mimium_lang::{function, numeric};
     let f = |_args: &[(Value, mimium_lang::interner::TypeNodeId)]| -> Value {
         let v = std::env::var_os("MIMIUM_CURRENT_MACRO_FILE")
-            .map(|p| (fnv(p.to_string_lossy().as_bytes()) % 1000) as f64 + 1.0)
+            // only the file name: the directory holds the process id, and a run must be a pure
+            // function of its seed
+            .map(|p| {
+                let name = std::path::Path::new(&p).file_name().map(|n| n.to_string_lossy().to_string()).unwrap_or_default();
+                (fnv(name.as_bytes()) % 1000) as f64 + 1.0
+            })
             .unwrap_or(0.0);
         Value::Number(v)
     };
@@ -429,7 +434,7 @@ const WORDS: [&str; 16] = [
 /// glob imports of two modules exporting the same name, and a neighbour that merely uses the same
 /// spellings as ordinary identifiers.
 fn gen_special(r: &mut Rng) -> String {
-    let which = r.below(7);
+    let which = r.below(8);
     gen_special_of(r, which)
 }
 
@@ -437,6 +442,19 @@ fn gen_special_of(r: &mut Rng, which: u64) -> String {
     let mut w: Vec<&str> = WORDS.to_vec();
     r.shuffle(&mut w);
     match which {
+        // type aliases with fixed names whose targets differ from job to job, nested in another alias
+        7 => {
+            let g = ["2.0", "0.5", "3.0"][r.below(3) as usize];
+            if r.chance(1, 2) {
+                format!(
+                    "type alias Smp = float\ntype alias Frm = (Smp, Smp)\nfn left(f: Frm, g: float) -> float {{\n    let (l, r) = f\n    l * g\n}}\nfn right(f: Frm, g: float) -> float {{\n    let (l, r) = f\n    r * g\n}}\nfn dsp() -> float {{\n    left((1.0, 2.0), {g}) + right((1.0, 2.0), {g})\n}}\n"
+                )
+            } else {
+                format!(
+                    "type alias Smp = (float, float)\ntype alias Frm = (Smp, Smp)\nfn left(f: Frm, g: float) -> float {{\n    let (l, r) = f\n    let (a, b) = l\n    (a + b) * g\n}}\nfn right(f: Frm, g: float) -> float {{\n    let (l, r) = f\n    let (a, b) = r\n    (a + b) * g\n}}\nfn dsp() -> float {{\n    left(((1.0, 2.0), (3.0, 4.0)), {g}) + right(((1.0, 2.0), (3.0, 4.0)), {g})\n}}\n"
+                )
+            }
+        }
         // scenario C: a macro that observes the macro-file environment variable
         6 => format!(
             "#stage(macro)\nfn tag{m}(){{\n    verif_macro_file_tag() |> lift_f\n}}\n#stage(main)\nfn dsp(){{\n    tag{m}!() + {}\n}}\n",
@@ -540,7 +558,7 @@ fn gen_scenario(seed: u64) -> Scenario {
     let identical = r_cfg.chance(1, 4);
     // family: every job is an instance of the same special template (same shape, other constants
     // and names), so all threads go through the same compiler phases at the same time
-    let same_template = if r_cfg.chance(1, 5) { Some(r_cfg.below(7)) } else { None };
+    let same_template = if r_cfg.chance(1, 4) { Some(r_cfg.below(8)) } else { None };
     let mut jobs = vec![];
     for i in 0..k {
         let src = if let Some(t) = same_template {
